@@ -17,7 +17,11 @@
 (*              same gate; writes go to the WAL and never touch the main file.                   *)
 (*   vacuum / delete : SQLite online backup API in ONE step (Step(-1)) = one read transaction    *)
 (*              on main file + WAL.                                                              *)
-(*   sql      : schema, then table by table, all inside one read transaction.                    *)
+(*   sql      : schema, then table by table, all inside one read transaction.  The rows of a     *)
+(*              table are read with a query built from the table's and its columns' names; the   *)
+(*              query can report an error (an identifier that was not escaped for the place it   *)
+(*              is put in, a read error): every table's rows are read successfully or the dump   *)
+(*              fails -- a table written with its schema but without its rows is not a backup.   *)
 (*   through a follower: the leader answers with a header, then the (always compressed) stream   *)
 (*              of units and an end marker (the gzip trailer).  The connection may be cut at any *)
 (*              position, cleanly (FIN) or abruptly (RST).  The follower's client must notice a  *)
@@ -43,7 +47,8 @@ CONSTANTS MaxWrites,            \* bound on transfers
           StreamEndDetected,    \* the follower's client recognises the end marker also when it passes the compressed stream through
           AbortAfterPartial,    \* an error after the first body byte aborts the HTTP response
           EndMarkerOnlyOnSuccess, \* the end marker (gzip trailer) of a compressed stream is written only after complete production
-          CopyErrorReturned     \* a failure of the copy into the stream is the result of the producing function
+          CopyErrorReturned,    \* a failure of the copy into the stream is the result of the producing function
+          DumpRowErrorsReturned \* an error reported by the query that reads a table's rows fails the SQL dump
 
 VARIABLES hist,   \* sequence of database states
           ckpt,   \* number of transfers contained in the main database file (the rest is in the WAL)
@@ -81,7 +86,10 @@ Matches(cont, st) == \A t \in TableSet : cont.tab[t] # Missing => cont.tab[t] = 
 CurrentDuring(H(_), N, n, s, e) == H(n).lo <= e /\ (IF n = N THEN TRUE ELSE H(n + 1).hi > s)
 SomeState(H(_), N, cont) == \E n \in 1..N : Matches(cont, H(n))
 ConsistentP(H(_), N, s, e, cont) == \E n \in 1..N : Matches(cont, H(n)) /\ CurrentDuring(H, N, n, s, e)
-CompleteP(cont, nobj) == cont.obj = nobj /\ \A t \in TableSet : cont.tab[t] # Missing
+(* every schema object, every table, and of every table at least the rows the first state of the history has  *)
+(* (the workload never deletes a row)                                                                          *)
+CompleteP(cont, st0) == /\ cont.obj = st0.obj
+                        /\ \A t \in TableSet : IF cont.tab[t] = Missing THEN FALSE ELSE cont.tab[t][1] >= st0.tab[t][1]
 (* what the requester takes the HTTP response for: a backup, unless the status or the transport says otherwise *)
 Answer(status, clean) == IF status = 200 /\ clean THEN "ok" ELSE "error"
 (* a backup whose production failed (or whose stream was cut) is never answered as a backup *)
@@ -116,7 +124,7 @@ Begin(f, z, v) ==
   /\ bk.pc = "idle" /\ nbk < MaxBackups
   /\ bk' = [pc |-> CASE f = "binary" -> "presnap" [] f = "sql" -> "dump" [] OTHER -> "online",
             fmt |-> f, compress |-> z, via |-> v, start |-> Applied, end |-> -1, snap |-> -1,
-            cont |-> NoContent, todo |-> Units, cut |-> NoCut, pfail |-> -1, result |-> "none", status |-> 0, clean |-> FALSE]
+            cont |-> NoContent, todo |-> Units, cut |-> NoCut, pfail |-> -1, rowerr |-> FALSE, result |-> "none", status |-> 0, clean |-> FALSE]
   /\ nbk' = nbk + 1
   /\ UNCHANGED <<hist, ckpt, cas, nauto>>
 
@@ -174,6 +182,22 @@ ProducerFail(k) ==
   /\ cas' = IF bk.pc = "copy" THEN "free" ELSE cas
   /\ UNCHANGED <<hist, ckpt, nauto, nbk>>
 
+(* ---- sql: the query that reads the rows of the next table reports an error ---- *)
+(* The table's CREATE statement is already in the stream.  Either the dump fails there (a producer failure with  *)
+(* the units written so far), or the error is ignored: the table goes out without rows and the dump goes on.     *)
+EmptyTab(u) == IF u = "m" THEN <<0, 0, 0>> ELSE <<0, 0>>
+DumpRowError ==
+  /\ bk.pc = "dump" /\ bk.pfail = -1 /\ ~bk.rowerr
+  /\ Head(bk.todo) \in TableSet
+  /\ LET u == Head(bk.todo)
+         k == NUnits - Len(bk.todo)
+         at == IF DumpInOneReadTxn /\ bk.snap >= 0 THEN bk.snap ELSE Applied
+     IN IF DumpRowErrorsReturned
+        THEN bk' = [bk EXCEPT !.pc = "produced", !.pfail = k, !.rowerr = TRUE, !.todo = <<>>, !.cont = Restrict(bk.cont, k)]
+        ELSE bk' = [bk EXCEPT !.cont.tab[u] = EmptyTab(u), !.todo = Tail(bk.todo), !.snap = at, !.rowerr = TRUE,
+                              !.pc = IF Len(bk.todo) = 1 THEN "produced" ELSE "dump"]
+  /\ UNCHANGED <<hist, ckpt, cas, nauto, nbk>>
+
 (* served by the leader itself: the producing function writes straight into the HTTP response *)
 Local == /\ bk.pc = "produced" /\ bk.via = "leader"
          /\ LET perr == bk.pfail # -1 /\ CopyErrorReturned         \* the producing function returns the failure
@@ -213,6 +237,7 @@ Next == \/ \E d \in Delta : Write(d)
         \/ \E f \in Formats, z \in BOOLEAN, v \in {"leader", "follower"} : Begin(f, z, v)
         \/ PreSnapshot \/ TakeGate \/ CopyUnit \/ CopyDone \/ Online \/ Dump
         \/ \E k \in 0..NUnits : ProducerFail(k)
+        \/ DumpRowError
         \/ Local \/ \E c \in Cuts : Remote(c)
         \/ Again
 Spec == Init /\ [][Next]_vars
@@ -226,8 +251,8 @@ TypeOK == /\ ckpt \in 0..MaxWrites /\ cas \in {"free", "backup"} /\ ckpt <= Appl
 
 (* a successful backup is the database as of one log index of its window *)
 Consistent == Success => ConsistentP(HistAt, Len(hist), bk.start, bk.end, bk.cont)
-(* ... with every object and every table *)
-Complete == Success => CompleteP(bk.cont, NObj)
+(* ... with every object, every table and the tables' rows *)
+Complete == Success => CompleteP(bk.cont, State0)
 (* a cut stream, or a stream whose production failed, is never reported as a successful backup *)
 CutIsError == Done => /\ bk.result = Answer(bk.status, bk.clean)
                       /\ FailedIsErrorP(bk.cut.at # -1 \/ bk.pfail # -1, bk.status, bk.clean)
